@@ -1,7 +1,7 @@
-"""C07: memory safety and read-only treatment of application buffers (sanitizer + checksum exploration)."""
+"""C07: memory safety and read-only treatment of application buffers (bounds / frame / ledger theorems + sanitizer runs with checksums)."""
 import vlib, session_check, sessions
 
-LEVEL = "exploration"
+LEVEL = "proof"
 
 
 def run(c):
@@ -10,4 +10,4 @@ def run(c):
     session_check.run_sessions(c, (sessions.RS28, sessions.RS2M, sessions.LDPC), {"C07"}, 500 if q else 6000, 700 if q else 10000, big=True)
     c.cov["explanation"] = ("every life cycle runs under ASan/UBSan with every application buffer (symbols of exactly L bytes, pointer tables of exactly n resp. k entries) "
                             "in its own exact-size heap block, and all buffers handed to the library are compared before/after; a crash or a changed buffer is the violation")
-    c.trusted = ["gcc 12 ASan/UBSan runtime (alignment check disabled: the library dereferences unaligned words by design)", "harness/drv_dec.c, tools/sessions.py"]
+    c.trusted = ["Coq kernel (Properties_C07.v: closed under the global context)", "hand-written models tied by the session / kernel / ledger correspondences", "gcc 12 ASan/UBSan runtime (alignment check disabled: the library dereferences unaligned words by design)", "harness/drv_dec.c, tools/sessions.py"]
